@@ -522,7 +522,7 @@ class NPShim:
             c = d.const()
             if c is not None and u.const() is not None:
                 return abs(c) <= 1e-8 + 1e-5 * abs(v.const())
-            return Cond("isclose", u, v, text=("tol", tol_r, tol_a))
+            return Cond("isclose", u, v, tol=(tol_r, tol_a))
         def _num(t, dflt):
             try:
                 return float(unwrap(t)) if t is not None else dflt
@@ -661,6 +661,7 @@ def _close_const(u, v):
 
 
 class Interp:
+    GATE_LOG = []      # every tolerance comparison any interpretation of this run met: (function, lhs, rhs, (rtol, atol), answer)
     MAX_DEPTH = 8
     MAX_LOOP = 128
 
@@ -698,6 +699,8 @@ class Interp:
         if v is None:
             raise Undecided(cond)
         self.decisions.append((cond, v, was_generic))
+        if cond.op in ("isclose", "allclose") and isinstance(cond.lhs, Rat):
+            Interp.GATE_LOG.append((self.func_stack[-1].ref if self.func_stack else "?", cond.lhs, cond.rhs, getattr(cond, "tol", None) or (1e-5, 1e-8), v))
         return v
 
     def generic(self, cond):
